@@ -87,7 +87,7 @@ theorem sisCorrect_ok (cfg : SisCfg ℝ) (lin circ : Nat) (hN : 0 < cfg.N) (s : 
   · simpa using hp
   · simp only [if_true]
     apply normalizeLog_setOK _ _ _ hN
-    cases hs : (sisFlags s ev).2
+    cases hs : (sisFlagsCor s ev).2
     · simp only [Bool.not_false, if_true]
       exact bootstrapCorrect_shape _ _ _ _ _ _ _ hp.toShapeOK hev.likLen
     · simp only [Bool.not_true, Bool.false_eq_true, if_false]
@@ -173,7 +173,7 @@ theorem sisStepWith_rng (cfg : SisCfg ℝ) (s : SisState π ℝ) (ev : SisEvent 
   split <;> rfl
 
 theorem sisStepWith_flags (cfg : SisCfg ℝ) (s : SisState π ℝ) (ev : SisEvent π ℝ) :
-    (sisStepWith rs cfg s ev).skipPred = (sisFlags s ev).1 ∧ (sisStepWith rs cfg s ev).skipCor = (sisFlags s ev).2 := by
+    (sisStepWith rs cfg s ev).skipPred = (sisFlagsEnd s ev).1 ∧ (sisStepWith rs cfg s ev).skipCor = (sisFlagsEnd s ev).2 := by
   unfold sisStepWith
   simp only
   split <;> exact ⟨rfl, rfl⟩
@@ -234,7 +234,7 @@ theorem sisCorrect_shape (cfg : SisCfg ℝ) (lin circ : Nat) (hN : 0 < cfg.N) (s
     unfold sisCorrect
     simp only [hf, if_true]
     apply normalizeLog_setOK _ _ _ hN
-    cases hs : (sisFlags s ev).2
+    cases hs : (sisFlagsCor s ev).2
     · simp only [Bool.not_false, if_true]
       exact bootstrapCorrect_shape _ _ _ _ _ _ _ hp hev.likLen
     · simp only [Bool.not_true, Bool.false_eq_true, if_false]
